@@ -588,16 +588,20 @@ macro_rules! impl_writer_e {
             where
                 u64: CastableInto<WW::Word>,
             {
+                // The library writer flushes (and unwraps the result) in its Drop. If the history panics, dropping
+                // the writer during unwinding could panic again and abort the whole check: the writer is therefore
+                // kept in a ManuallyDrop while the history runs and only dropped on the normal path.
                 let bw = BufBitWriter::<$E, WW>::new(backend);
                 let mut end_flush = vec![];
                 match wrap {
                     WWrap::None => {
-                        let mut bw = bw;
+                        let mut bw = std::mem::ManuallyDrop::new(bw);
                         {
                             let caps = WCaps { io_write: Some(cap_io_write), io_flush: Some(cap_io_flush), counter: None };
-                            let mut w = Wr::<$E, _>::new(&mut bw, caps);
+                            let mut w = Wr::<$E, _>::new(&mut *bw, caps);
                             f(&mut w, rec);
                         }
+                        let mut bw = std::mem::ManuallyDrop::into_inner(bw);
                         match end {
                             WEnd::IntoInner => (bw.into_inner().ok(), end_flush),
                             WEnd::Drop => {
@@ -617,23 +621,23 @@ macro_rules! impl_writer_e {
                         }
                     }
                     WWrap::Count => {
-                        let mut cw = CountBitWriter::<$E, _>::new(bw);
+                        let mut cw = std::mem::ManuallyDrop::new(CountBitWriter::<$E, _>::new(bw));
                         {
                             let caps = WCaps { io_write: None, io_flush: None, counter: Some(|c: &CountBitWriter<$E, BufBitWriter<$E, WW>>| c.bits_written) };
-                            let mut w = Wr::<$E, _>::new(&mut cw, caps);
+                            let mut w = Wr::<$E, _>::new(&mut *cw, caps);
                             f(&mut w, rec);
                         }
-                        let bw = cw.into_inner();
+                        let bw = std::mem::ManuallyDrop::into_inner(cw).into_inner();
                         (bw.into_inner().ok(), end_flush)
                     }
                     WWrap::Dbg => {
-                        let mut dw = DbgBitWriter::<$E, _>::new(bw);
+                        let mut dw = std::mem::ManuallyDrop::new(DbgBitWriter::<$E, _>::new(bw));
                         {
-                            let mut w = Wr::<$E, _>::new(&mut dw, WCaps::none());
+                            let mut w = Wr::<$E, _>::new(&mut *dw, WCaps::none());
                             f(&mut w, rec);
                         }
                         // DbgBitWriter has no into_inner: dropping it drops (and flushes) the inner writer
-                        drop(dw);
+                        drop(std::mem::ManuallyDrop::into_inner(dw));
                         (None, end_flush)
                     }
                 }
